@@ -96,6 +96,19 @@ fn c02_div_f() {
     kani::cover!(b == 0.0 && b.is_sign_negative());
 }
 
+// the zero-divisor guard alone (no dependence on the quotient: cheap enough for the quick tier)
+#[kani::proof]
+fn c02_div_f_zero_guard() {
+    let a: f64 = kani::any();
+    let b: f64 = kani::any();
+    kani::assume(a.is_finite() && b.is_finite());
+    let r = div_f(a, b);
+    let zd = matches!(r, Err(EvalError::ZeroDivisor));
+    assert!(zd == (b == 0.0));
+    kani::cover!(b.is_subnormal());
+    kani::cover!(b == 0.0 && b.is_sign_negative());
+}
+
 // integer -> float promotion: always finite, equal to the nearest-even conversion
 #[kani::proof]
 #[kani::unwind(10)]
